@@ -224,6 +224,12 @@ func randomScript(r *gen.Rng, o *out.W, prop string, p profile) {
 			// reconnect some client that is gone (or take over a live one)
 			id := ids[r.Intn(len(ids))]
 			old := cur[id]
+			if p.wBad > 0 && r.Intn(5) == 0 && w.alive(old) {
+				w.Stall(old)
+				nn := w.Reconnect(old, r.Intn(4) == 0) // refused: kill timeout
+				_ = nn
+				w.Unstall(old)
+			}
 			cur[id] = w.Reconnect(old, r.Intn(4) == 0)
 		case 6:
 			w.Release(c)
@@ -606,6 +612,12 @@ func c13Script(r *gen.Rng, o *out.W) {
 			if r.Intn(4) == 0 {
 				w.Drop(cur)
 			}
+			stalledOld := 0
+			if r.Intn(4) == 0 && w.alive(cur) {
+				// the old connection cannot finish dying: the takeover runs into the kill timeout
+				w.Stall(cur)
+				stalledOld = cur
+			}
 			old := cur
 			cur = w.Conn()
 			po := w.peers[old]
@@ -616,6 +628,15 @@ func c13Script(r *gen.Rng, o *out.W) {
 			}
 			w.seq++
 			w.Connect(cur, "V", clean, &packet.Message{Topic: "w", Payload: []byte(fmt.Sprintf("will-v%d", w.seq)), QOS: 1}, 0, "", "")
+			if stalledOld != 0 {
+				w.Unstall(stalledOld)
+				// the newcomer was refused; try again now that the old connection is gone
+				nn := w.Conn()
+				w.peers[nn].unacked = w.peers[cur].unacked
+				cur = nn
+				w.seq++
+				w.Connect(cur, "V", clean, &packet.Message{Topic: "w", Payload: []byte(fmt.Sprintf("will-v%d", w.seq)), QOS: 1}, 0, "", "")
+			}
 			if clean {
 				w.Subscribe(cur, packet.Subscription{Topic: "t", QOS: 1}, packet.Subscription{Topic: "w", QOS: 1})
 			}
@@ -625,6 +646,45 @@ func c13Script(r *gen.Rng, o *out.W) {
 	w.finish()
 	o.Distinct(strings.Join(w.trace, "\n"))
 	o.Sample(fmt.Sprintf("takeover script, %d lines", len(w.trace)))
+}
+
+// resume with several unacknowledged messages (C15: retransmission order)
+func c15Resume(r *gen.Rng, o *out.W) {
+	win := 4 + r.Intn(7)
+	w := newWorld(o, "C15", win, 100, nil)
+	a := w.Conn()
+	w.Connect(a, "PUB", true, nil, 0, "", "")
+	b := w.Conn()
+	w.Connect(b, "SUB", false, nil, 0, "", "")
+	w.Subscribe(b, packet.Subscription{Topic: "t/#", QOS: 2})
+	for round := 0; round < 1+r.Intn(3); round++ {
+		n := 3 + r.Intn(win)
+		for i := 0; i < n; i++ {
+			w.Publish(a, "t/x", packet.QOS(1+r.Intn(2)), false, false)
+			w.Release(a)
+		}
+		// acknowledge a few, in any order; PUBRECs move their id to the end of the transmission order
+		for i, k := 0, r.Intn(4); i < k; i++ {
+			w.AckOne(b, r.Intn(6))
+		}
+		if r.Bool() {
+			w.Drop(b)
+		} else {
+			w.FailSend(b, 1)
+			w.Publish(a, "t/y", 1, false, false)
+			if w.alive(b) {
+				w.Drop(b)
+			}
+		}
+		b = w.Reconnect(b, false)
+		for i, k := 0, r.Intn(3); i < k; i++ {
+			w.AckOne(b, r.Intn(6))
+		}
+	}
+	w.AckAll(b)
+	w.finish()
+	o.Distinct(strings.Join(w.trace, "\n"))
+	o.Sample(fmt.Sprintf("resume script window=%d, %d lines", win, len(w.trace)))
 }
 
 func TestHarness(t *testing.T) {
@@ -676,6 +736,7 @@ func TestHarness(t *testing.T) {
 			return profile{window: 2 + r.Intn(4), queue: 100, clients: 2 + r.Intn(4), steps: 30 + r.Intn(40), wSub: 4, wUnsub: 1, wPub: 8, wAck: 4, wDrop: 3, wRecon: 4, wRelease: 1, wPing: 1, wBad: 6, wFail: 3, retain: 20, wills: true, qos: all, multiFilter: true}
 		})
 	case "C15":
+		sc("C15 resume order", c15Resume)
 		rs("C15 ordering", func() profile {
 			return profile{window: 1 + r.Intn(10), queue: 100, clients: 2 + r.Intn(4), steps: 40 + r.Intn(60), wSub: 2, wPub: 14, wAck: 8, wDrop: 1, wRecon: 2, wFail: 1, qos: all}
 		})
